@@ -1,5 +1,8 @@
 import PytmeModel.Model.C17
 import PytmeModel.Proofs.C17
+import PytmeModel.Model.C17Scores
+import PytmeModel.Proofs.C17Scores
+import PytmeModel.Proofs.C17MI
 import PytmeModel.Extracted.C17
 import Mathlib.Tactic.Ring
 import Mathlib.Tactic.Linarith
@@ -17,8 +20,17 @@ Clause map (property text → theorems):
   `formatPose_translation`, `formatPose_angles`, `flcWindow_len_eq`, `flcWindow_overlap`,
   `flcWindow_disjoint` (no pose makes the window arithmetic ill-formed), witness
   `flcWindowOld_defect`; the registry itself is tied by reflection in the harness.
-* "similarity scores are best at the generating pose" → exact-arithmetic parts `ncc_sq_le`,
-  `ncc_planted_attains`, `plsq_nonneg`, `plsq_planted_zero`; everything else Leg B.
+* "similarity scores are best at the generating pose" → on the voxel grid, score by score, about the
+  executable formulas of `Model/C17Scores.lean` (second half of this file): sign convention
+  `scoreSign_mul_le`, `similarity_best_both_conventions`, `distance_best_both_conventions`;
+  CC `cc_planted_best_of_norm_le` (+ witness `cc_planted_not_best_without_norm_bound`); NCC `ncc_planted_best`
+  (corollaries of the same Cauchy–Schwarz: `ncc_sq_le`, `ncc_planted_attains`); PLSQ `plsq_eq_zero_iff`,
+  `plsq_planted_best` (corollaries `plsq_nonneg`, `plsq_planted_zero`); Chamfer `chamfer_zero_iff`,
+  `nnSq_mono_target`; NVS `nvs_planted_best`; MCC `mcc_integer_sq_le`, `mcc_integer_planted` (+ witnesses
+  `mcc_truncation_defect`, `mcc_overlap_defect`, `mcc_mask_subset_defect`); MI `mi_planted_best`,
+  `mi_planted_best_within_regulariser`; FLC `flc_full_sq_le`, `flc_full_planted`; Envelope `envRaw_eq`,
+  `envelope_planted_worst_in_volume`, `envelope_current_defect`; NCCMean `nccMean_planted_not_best`;
+  Laplace `laplace_planted_vectors_differ`.  Off the voxel grid (interpolation, rotations): Leg B.
 * "optimiser returns a pose inside the bounds whose score is no worse than the start" →
   `effBounds_length`, `effBounds_widens_by_res`, `result_in_bounds`, `result_no_worse_than_start`,
   `result_score_consistent`, `optimizeMatch_sound`, witness `optimizeWrapOld_defect`.
@@ -443,5 +455,963 @@ theorem d2dPool_values {α β : Type} (S : Nat → D2DStatic α β) (L : Nat →
 example : (poolRun (fun (i : Nat) s x => c2dStep (exC2D (if i = 0 then .normalised else .generic)) s x)
     (fun _ => ⟨[0, 0], some [0], [0, 0], 0⟩) [(0, [1]), (1, [2]), (0, [3]), (1, [2])]).1 =
     [[1, 1, 1, 1, 1, 1], [2, 2, 2, 2, 2, 0], [3, 3, 3, 3, 3, 3], [2, 2, 2, 2, 2, 0]] := by decide
+
+/-! # score formulas (Model/C17Scores.lean): "best at the generating pose", score by score
+
+Every statement is about the executable functions the driver runs (`c17.score.*` ops, compared with the
+real classes on integer-voxel inputs).  A template *generated* from the target at positions `P0` has the
+weights `w = sampleAll 0 shape T P0`; any other pose that keeps the points on voxels evaluates the formula
+on `v = sampleAll 0 shape T P` (zero outside the volume, as `map_coordinates(mode="constant")`). -/
+
+/-! ## sign convention (`negate_score`) -/
+
+/-- `negate_score=True` returns the similarity negated, so the optimiser (which minimises) looks for the
+largest similarity; `negate_score=False` returns it as it is.  Multiplying by the sign reverses /
+keeps the order: "the planted pose is best" is the same clause under both conventions -/
+theorem scoreSign_mul_le {α : Type} [Field α] [LinearOrder α] [IsStrictOrderedRing α] (negate : Bool) (a b : α) :
+    a * scoreSign 1 negate ≤ b * scoreSign 1 negate ↔ (if negate then b ≤ a else a ≤ b) := by
+  cases negate <;> simp [scoreSign]
+
+/-- the same for the scores that *divide* by the sign (`CrossCorrelation` and its subclasses) -/
+theorem scoreSign_div_le {α : Type} [Field α] [LinearOrder α] [IsStrictOrderedRing α] (negate : Bool) (a b : α) :
+    a / scoreSign 1 negate ≤ b / scoreSign 1 negate ↔ (if negate then b ≤ a else a ≤ b) := by
+  cases negate <;> simp [scoreSign, div_neg]
+
+/-- a similarity that is largest at the planted pose is *best* there under both conventions: smallest
+returned value with `negate_score=True`, largest with `negate_score=False` -/
+theorem similarity_best_both_conventions {α : Type} [Field α] [LinearOrder α] [IsStrictOrderedRing α]
+    (planted other : α) (h : other ≤ planted) :
+    planted * scoreSign 1 true ≤ other * scoreSign 1 true ∧
+      other * scoreSign 1 false ≤ planted * scoreSign 1 false :=
+  ⟨(scoreSign_mul_le true planted other).mpr h, (scoreSign_mul_le false other planted).mpr h⟩
+
+/-- a distance that is smallest at the planted pose: smallest returned value with `negate_score=False`,
+largest with `negate_score=True` -/
+theorem distance_best_both_conventions {α : Type} [Field α] [LinearOrder α] [IsStrictOrderedRing α]
+    (planted other : α) (h : planted ≤ other) :
+    planted * scoreSign 1 false ≤ other * scoreSign 1 false ∧
+      other * scoreSign 1 true ≤ planted * scoreSign 1 true :=
+  ⟨(scoreSign_mul_le false planted other).mpr h, (scoreSign_mul_le true other planted).mpr h⟩
+
+example : scoreSign (1 : Int) true = -1 ∧ scoreSign (1 : Int) false = 1 := by decide
+example := similarity_best_both_conventions (14 : ℚ) 10 (by norm_num)
+
+/-! ## sampling -/
+
+/-- outside the volume the interpolated value is 0, inside it is the voxel -/
+theorem sample_spec {α : Type} (zero : α) (shape : List Nat) (T : List Int → α) (p : List Int) :
+    sample zero shape T p = if inVol shape p then T p else zero := rfl
+
+/-- the pose "translation by `t`" evaluates as many values as the template has points -/
+theorem sampleAll_shift_length {α : Type} (zero : α) (shape : List Nat) (T : List Int → α) (t : List Int)
+    (P : List (List Int)) : (sampleAll zero shape T (shiftPts t P)).length = P.length := by
+  simp [sampleAll, shiftPts]
+
+example : sampleAll (0 : Int) [4] (fun p => [1, 3, 0, 2].getD (p.headD 0).toNat 0) (shiftPts [2] [[-1], [0], [1], [2]])
+    = [3, 0, 2, 0] := by decide
+
+/-! ## CrossCorrelation -/
+
+/-- value at the generating pose: `Σ w² / sign` -/
+theorem cc_planted_value {α : Type} [Field α] (sign : α) (shape : List Nat) (T : List Int → α)
+    (P0 : List (List Int)) :
+    ccScore 0 1 sign (sampleAll 0 shape T P0) (sampleAll 0 shape T P0) =
+      dot 0 (sampleAll 0 shape T P0) (sampleAll 0 shape T P0) / sign := by
+  simp [ccScore]
+
+/-- **what holds for the unnormalised cross-correlation**: the generating pose is at least as good as
+every pose (positions anywhere, inside or outside the volume) whose sampled values have no larger
+Euclidean norm than the template's weights (Cauchy–Schwarz) … -/
+theorem cc_planted_best_of_norm_le {α : Type} [Field α] [LinearOrder α] [IsStrictOrderedRing α]
+    (shape : List Nat) (T : List Int → α) (P0 P : List (List Int)) (h : P.length = P0.length)
+    (hn : dot 0 (sampleAll 0 shape T P) (sampleAll 0 shape T P) ≤
+      dot 0 (sampleAll 0 shape T P0) (sampleAll 0 shape T P0)) :
+    ccScore 0 1 1 (sampleAll 0 shape T P) (sampleAll 0 shape T P0) ≤
+      ccScore 0 1 1 (sampleAll 0 shape T P0) (sampleAll 0 shape T P0) := by
+  simp only [ccScore, mul_one, div_one]
+  exact dot_le_of_norm_le _ _ (by simp [sampleAll, h]) hn
+
+/-- … and in absolute value too: `|⟨v,w⟩| ≤ ⟨w,w⟩` -/
+theorem cc_abs_le_of_norm_le {α : Type} [Field α] [LinearOrder α] [IsStrictOrderedRing α]
+    (v w : List α) (h : v.length = w.length) (hn : dot 0 v v ≤ dot 0 w w) :
+    -(dot 0 w w) ≤ dot 0 v w ∧ dot 0 v w ≤ dot 0 w w := by
+  refine ⟨?_, dot_le_of_norm_le v w h hn⟩
+  have h1 := dot_sq_le v w h
+  have h2 := dot_self_nonneg w
+  by_contra hc
+  have hc' : dot 0 v w < -(dot 0 w w) := not_le.mp hc
+  have : dot 0 w w * dot 0 w w < (-(dot 0 v w)) * (-(dot 0 v w)) := mul_self_lt_mul_self h2 (by linarith)
+  nlinarith [mul_le_mul_of_nonneg_right hn h2]
+
+/-- without the norm condition the clause is false for this score (which is why the harness only scales
+the intensities for it): a one-point template cut from the voxel of value 1 scores 3 one voxel further -/
+theorem cc_planted_not_best_without_norm_bound :
+    let T : List Int → Int := fun p => [1, 3].getD (p.headD 0).toNat 0
+    let w := sampleAll 0 [2] T [[0]]
+    ccScore 0 1 1 (sampleAll 0 [2] T [[0]]) w = 1 ∧
+      ccScore 0 1 1 (sampleAll 0 [2] T (shiftPts [1] [[0]])) w = 3 := by decide
+
+example : dot (0 : ℚ) [1, 2] [1, 2] ≤ dot 0 [2, 2] [2, 2] := by norm_num [dot]
+
+/-! ## NormalizedCrossCorrelation -/
+
+/-- Cauchy–Schwarz on what the code evaluates: for *any* positions — in the volume, partly outside
+(zeros) or wholly outside — numerator² ≤ denominator² … -/
+theorem ncc_sampled_sq_le {α : Type} [Field α] [LinearOrder α] [IsStrictOrderedRing α]
+    (shape : List Nat) (T : List Int → α) (P : List (List Int)) (w : List α) (h : P.length = w.length) :
+    (nccParts 0 (sampleAll 0 shape T P) w).1 ^ 2 ≤ (nccParts 0 (sampleAll 0 shape T P) w).2 := by
+  simp only [nccParts]
+  rw [mul_comm]
+  exact dot_sq_le _ _ (by simp [sampleAll, h])
+
+/-- … so the value `numerator / √denominator²` of every pose lies in [−1, 1] (`s` is the square root:
+any positive `s` with `s² = denominator²`, in any ordered field that has it) … -/
+theorem ncc_value_le_one {α : Type} [Field α] [LinearOrder α] [IsStrictOrderedRing α]
+    (v w : List α) (h : v.length = w.length) (s : α) (hs : 0 < s) (hsq : s ^ 2 = (nccParts 0 v w).2) :
+    -1 ≤ (nccParts 0 v w).1 / s ∧ (nccParts 0 v w).1 / s ≤ 1 := by
+  have hb : (nccParts 0 v w).1 ^ 2 ≤ (nccParts 0 v w).2 := by
+    simp only [nccParts]; rw [mul_comm]; exact dot_sq_le v w h
+  exact ⟨neg_one_le_div_root _ _ s hs hsq hb, div_root_le_one _ _ s hs hsq hb⟩
+
+/-- … the generating pose (values = weights, not all zero) has the value exactly 1 … -/
+theorem ncc_planted_value_one {α : Type} [Field α] [LinearOrder α] [IsStrictOrderedRing α]
+    (w : List α) (hw : 0 < dot 0 w w) (s : α) (hs : 0 < s) (hsq : s ^ 2 = (nccParts 0 w w).2) :
+    (nccParts 0 w w).1 / s = 1 :=
+  div_root_self _ s hw hs hsq
+
+/-- … hence **the generating pose is best** for the normalised cross-correlation, against every other
+pose that passes the `denominator <= 0` guard … -/
+theorem ncc_planted_best {α : Type} [Field α] [LinearOrder α] [IsStrictOrderedRing α]
+    (v w : List α) (h : v.length = w.length) (hw : 0 < dot 0 w w)
+    (s sp : α) (hs : 0 < s) (hsq : s ^ 2 = (nccParts 0 v w).2)
+    (hsp : 0 < sp) (hspq : sp ^ 2 = (nccParts 0 w w).2) :
+    (nccParts 0 v w).1 / s ≤ (nccParts 0 w w).1 / sp := by
+  rw [ncc_planted_value_one w hw sp hsp hspq]
+  exact (ncc_value_le_one v w h s hs hsq).2
+
+/-- … and against the poses that do not: the guard fires exactly when the weights or the sampled values
+vanish (template wholly outside the volume), the value returned is then 0 ≤ 1 -/
+theorem ncc_guard_iff {α : Type} [Field α] [LinearOrder α] [IsStrictOrderedRing α] (v w : List α) :
+    nccGuard 0 v w = true ↔ dot 0 w w = 0 ∨ dot 0 v v = 0 := by
+  unfold nccGuard nccParts
+  rw [decide_eq_true_iff]
+  have h1 := dot_self_nonneg v
+  have h2 := dot_self_nonneg w
+  constructor
+  · intro h
+    have : dot 0 w w * dot 0 v v = 0 := le_antisymm h (mul_nonneg h2 h1)
+    exact mul_eq_zero.mp this
+  · rintro (h | h) <;> simp [h]
+
+example : nccParts (0 : Int) [1, 2, 3] [3, 2, 1] = (10, 196) := by decide
+example : nccGuard (0 : Int) [0, 0] [3, 1] = true ∧ nccGuard (0 : Int) [0, 1] [3, 1] = false := by decide
+example := ncc_planted_best ([3, 4] : List ℚ) [4, 3] rfl (by norm_num [dot]) 25 25 (by norm_num)
+  (by norm_num [nccParts, dot]) (by norm_num) (by norm_num [nccParts, dot])
+
+/-! ## NormalizedCrossCorrelationMean: the two different means make the planted pose non-optimal -/
+
+/-- recorded finding `planted-best:NormalizedCrossCorrelationMean`, on the model: target `[0,0,1,2]`,
+template cut at cells 0..2 (weights `[0,0,1]`).  The constructor subtracts the mean of the *whole map*
+(3/4) from the target and the mean of the *weights* (1/3) from the template: at the generating pose the
+two vectors are not proportional (value² = 96/171 < 1), one voxel further the value is larger
+(value² = 24/35); both numerators are positive -/
+theorem nccMean_planted_not_best :
+    let T : List Int → Rat := fun p => ([0, 0, 1, 2] : List Rat).getD (p.headD 0).toNat 0
+    let cells : List (List Int) := [[0], [1], [2], [3]]
+    let P0 : List (List Int) := [[0], [1], [2]]
+    let w := centreWeights 0 (1 / 3) (sampleAll 0 [4] T P0)
+    let T' := centreTarget 0 (1 / 4) cells T
+    let planted := nccParts 0 (sampleAll 0 [4] T' P0) w
+    let moved := nccParts 0 (sampleAll 0 [4] T' (shiftPts [1] P0)) w
+    planted = (2 / 3, 19 / 24) ∧ moved = (1, 35 / 24) ∧
+      planted.1 ^ 2 < planted.2 ∧ 0 < planted.1 ∧ 0 < moved.1 ∧
+      planted.1 ^ 2 * moved.2 < moved.1 ^ 2 * planted.2 := by decide +kernel
+
+/-- the corrected definition (the *same* offset on both sides: here none, i.e. plain NCC on the centred
+weights against values centred by the same mean) is covered by `ncc_planted_best`; with the code's two
+means the planted vectors differ by the constant `mean(target) − mean(weights)` -/
+theorem nccMean_planted_offset {α : Type} [Field α] (muT muW : α) (w : List α) :
+    List.zipWith (· - ·) (w.map (· - muT)) (w.map (· - muW)) = w.map (fun _ => muW - muT) := by
+  induction w with
+  | nil => rfl
+  | cons a w ih => simp only [List.map_cons, List.zipWith_cons_cons, ih]; congr 1; ring
+
+example : centreWeights (0 : Rat) (1 / 3) [0, 0, 1] = [-1 / 3, -1 / 3, 2 / 3] := by decide +kernel
+
+/-! ## PartialLeastSquareDifference -/
+
+/-- the distance vanishes *exactly* at a copy -/
+theorem plsq_eq_zero_iff {α : Type} [Field α] [LinearOrder α] [IsStrictOrderedRing α] (v w : List α)
+    (h : v.length = w.length) : plsq 0 v w = 0 ↔ v = w :=
+  ⟨plsq_eq_zero v w h, fun e => e ▸ plsq_self w⟩
+
+/-- **best at the generating pose** (a distance: smallest), against every position set -/
+theorem plsq_planted_best {α : Type} [Field α] [LinearOrder α] [IsStrictOrderedRing α]
+    (shape : List Nat) (T : List Int → α) (P0 P : List (List Int)) :
+    plsq 0 (sampleAll 0 shape T P0) (sampleAll 0 shape T P0) ≤
+      plsq 0 (sampleAll 0 shape T P) (sampleAll 0 shape T P0) := by
+  rw [plsq_self]; exact plsq_nonneg_aux _ _
+
+example : plsq (0 : Int) [1, 2] [1, 2] = 0 ∧ plsq (0 : Int) [1, 3] [1, 2] = 1 := by decide
+
+/-! ## Envelope -/
+
+/-- the `-1` coding cancels: for interpolated values in {−1, 0, 1} the raw score is
+`#(points on empty voxels) − 2·#(points outside the volume) − present`; the number of points *inside*
+the envelope does not enter at all -/
+theorem envRaw_eq (present : Int) (v : List Int) (hv : ∀ x ∈ v, x = -1 ∨ x = 0 ∨ x = 1) :
+    envRaw present v = cnt 1 v - 2 * cnt 0 v - present := by
+  have := sumI_add_cnt v hv
+  unfold envRaw; omega
+
+/-- the normalisation is a positive affine map (denominator `3·present + 2·absent`) -/
+theorem envelopeParts_eq (present absent : Int) (v : List Int) (hv : ∀ x ∈ v, x = -1 ∨ x = 0 ∨ x = 1) :
+    envelopeParts present absent v =
+      (cnt 1 v - 2 * cnt 0 v + present + 4 * absent, 3 * present + 2 * absent) := by
+  simp only [envelopeParts, envRaw_eq present v hv, Prod.mk.injEq]
+  constructor <;> omega
+
+/-- **every outward move improves** (`negate_score=True`: larger is better): moving one point from
+inside the envelope (−1) onto an empty voxel (+1) raises the numerator by exactly 1 -/
+theorem envelope_outward_move_improves (present absent : Int) (l r : List Int)
+    (hl : ∀ x ∈ l, x = -1 ∨ x = 0 ∨ x = 1) (hr : ∀ x ∈ r, x = -1 ∨ x = 0 ∨ x = 1) :
+    (envelopeParts present absent (l ++ 1 :: r)).1 = (envelopeParts present absent (l ++ -1 :: r)).1 + 1 ∧
+      (envelopeParts present absent (l ++ 1 :: r)).2 = (envelopeParts present absent (l ++ -1 :: r)).2 := by
+  have h1 : ∀ x ∈ l ++ 1 :: r, x = -1 ∨ x = 0 ∨ x = 1 := by
+    intro x hx; rcases List.mem_append.mp hx with h | h
+    · exact hl x h
+    · rcases List.mem_cons.mp h with h | h
+      · exact Or.inr (Or.inr h)
+      · exact hr x h
+  have h2 : ∀ x ∈ l ++ -1 :: r, x = -1 ∨ x = 0 ∨ x = 1 := by
+    intro x hx; rcases List.mem_append.mp hx with h | h
+    · exact hl x h
+    · rcases List.mem_cons.mp h with h | h
+      · exact Or.inl h
+      · exact hr x h
+  rw [envelopeParts_eq _ _ _ h1, envelopeParts_eq _ _ _ h2]
+  simp only [cnt_append, cnt_cons]
+  constructor
+  · simp
+    omega
+  · trivial
+
+/-- the generating pose (all points inside the envelope) is the **worst** pose that keeps the template
+in the volume under `negate_score=True` … -/
+theorem envelope_planted_worst_in_volume (present absent : Int) (n : Nat) (u : List Int)
+    (hu : ∀ x ∈ u, x = -1 ∨ x = 1) (_hlen : u.length = n) :
+    (envelopeParts present absent (List.replicate n (-1))).1 ≤ (envelopeParts present absent u).1 := by
+  have h1 : ∀ x ∈ List.replicate n (-1 : Int), x = -1 ∨ x = 0 ∨ x = 1 := by
+    intro x hx; exact Or.inl (List.eq_of_mem_replicate hx)
+  have h2 : ∀ x ∈ u, x = -1 ∨ x = 0 ∨ x = 1 := by
+    intro x hx; rcases hu x hx with h | h
+    · exact Or.inl h
+    · exact Or.inr (Or.inr h)
+  rw [envelopeParts_eq _ _ _ h1, envelopeParts_eq _ _ _ h2]
+  have c0 : cnt 0 u = 0 := by
+    unfold cnt
+    have : List.count 0 u = 0 := List.count_eq_zero.mpr (fun h => by rcases hu 0 h with h | h <;> omega)
+    omega
+  have c1 : cnt 1 (List.replicate n (-1 : Int)) = 0 := by unfold cnt; simp [List.count_replicate]
+  have c2 : cnt 0 (List.replicate n (-1 : Int)) = 0 := by unfold cnt; simp [List.count_replicate]
+  have := cnt_nonneg 1 u
+  simp only [c0, c1, c2]
+  omega
+
+/-- … and with `negate_score=False` (smaller is better) every point pushed *out of the volume* (value 0)
+lowers the numerator by 2: the planted pose is not best under that convention either -/
+theorem envelope_out_of_volume_lowers (present absent : Int) (l r : List Int)
+    (hl : ∀ x ∈ l, x = -1 ∨ x = 0 ∨ x = 1) (hr : ∀ x ∈ r, x = -1 ∨ x = 0 ∨ x = 1) :
+    (envelopeParts present absent (l ++ 0 :: r)).1 = (envelopeParts present absent (l ++ -1 :: r)).1 - 2 := by
+  have h1 : ∀ x ∈ l ++ 0 :: r, x = -1 ∨ x = 0 ∨ x = 1 := by
+    intro x hx; rcases List.mem_append.mp hx with h | h
+    · exact hl x h
+    · rcases List.mem_cons.mp h with h | h
+      · exact Or.inr (Or.inl h)
+      · exact hr x h
+  have h2 : ∀ x ∈ l ++ -1 :: r, x = -1 ∨ x = 0 ∨ x = 1 := by
+    intro x hx; rcases List.mem_append.mp hx with h | h
+    · exact hl x h
+    · rcases List.mem_cons.mp h with h | h
+      · exact Or.inl h
+      · exact hr x h
+  rw [envelopeParts_eq _ _ _ h1, envelopeParts_eq _ _ _ h2]
+  simp only [cnt_append, cnt_cons]
+  simp
+  omega
+
+/-- recorded finding `planted-best:Envelope:identity` on the model: target `[0,0,5,5,0,0]`, threshold 2
+(codes `[1,1,−1,−1,1,1]`, present 2, absent 4), template = the two envelope voxels.  Planted value 18/14,
+shifted by one voxel 19/14, by two voxels 20/14 (better and better under `negate_score=True`), shifted
+out of the volume 14/14 (better under `negate_score=False`) -/
+theorem envelope_current_defect :
+    let code : List Int → Int := fun p => envCode (2 : Int) (([0, 0, 5, 5, 0, 0] : List Int).getD (p.headD 0).toNat 0)
+    let P0 : List (List Int) := [[2], [3]]
+    let at_ := fun (t : Int) => envelopeParts 2 4 (sampleAll 0 [6] code (shiftPts [t] P0))
+    at_ 0 = (18, 14) ∧ at_ 1 = (19, 14) ∧ at_ 2 = (20, 14) ∧ at_ 5 = (14, 14) := by decide
+
+example : envRaw 2 [-1, -1] = -2 ∧ envRaw 2 [1, 1] = 0 ∧ envRaw 2 [0, 0] = -6 := by decide
+
+/-! ## Chamfer -/
+
+/-- nearest-neighbour distances are never negative … -/
+theorem chamfer_nonneg {α : Type} [Field α] [LinearOrder α] [IsStrictOrderedRing α]
+    (P : List (List α)) (q0 : List α) (qs : List (List α)) : ∀ d ∈ chamferSqs 0 P q0 qs, 0 ≤ d := by
+  intro d hd
+  obtain ⟨p, _, rfl⟩ := List.mem_map.mp hd
+  obtain ⟨q, _, he⟩ := nnSq_attained p q0 qs
+  rw [he]; exact plsq_nonneg_aux _ _
+
+/-- … the nearest-neighbour distance of a point is 0 exactly when it coincides with a target point … -/
+theorem nnSq_eq_zero_iff {α : Type} [Field α] [LinearOrder α] [IsStrictOrderedRing α]
+    (p q0 : List α) (qs : List (List α)) (hd : ∀ q ∈ q0 :: qs, p.length = q.length) :
+    nnSq 0 p q0 qs = 0 ↔ p ∈ q0 :: qs := by
+  constructor
+  · intro h
+    obtain ⟨q, hq, he⟩ := nnSq_attained p q0 qs
+    have : p = q := plsq_eq_zero p q (hd q hq) (he ▸ h)
+    exact this ▸ hq
+  · intro h
+    have h1 := nnSq_le_of_mem p q0 qs p h
+    rw [plsq_self] at h1
+    obtain ⟨q, _, he⟩ := nnSq_attained p q0 qs
+    have h2 : 0 ≤ nnSq 0 p q0 qs := he ▸ plsq_nonneg_aux _ _
+    exact le_antisymm h1 h2
+
+/-- … so **the score is 0 iff every template point coincides with a target point** (in particular at the
+generating pose of a rigidly moved point set, where it is the minimum by `chamfer_nonneg`) … -/
+theorem chamfer_zero_iff {α : Type} [Field α] [LinearOrder α] [IsStrictOrderedRing α]
+    (P : List (List α)) (q0 : List α) (qs : List (List α))
+    (hd : ∀ p ∈ P, ∀ q ∈ q0 :: qs, p.length = q.length) :
+    (∀ d ∈ chamferSqs 0 P q0 qs, d = 0) ↔ ∀ p ∈ P, p ∈ q0 :: qs := by
+  constructor
+  · intro h p hp
+    exact (nnSq_eq_zero_iff p q0 qs (hd p hp)).mp (h _ (List.mem_map.mpr ⟨p, hp, rfl⟩))
+  · intro h d hdm
+    obtain ⟨p, hp, rfl⟩ := List.mem_map.mp hdm
+    exact (nnSq_eq_zero_iff p q0 qs (hd p hp)).mpr (h p hp)
+
+/-- … and it is monotone in the target: with more target points (any superset, in any order) no
+nearest-neighbour distance grows -/
+theorem nnSq_mono_target {α : Type} [Field α] [LinearOrder α] [IsStrictOrderedRing α]
+    (p q0 r0 : List α) (qs rs : List (List α)) (hsub : ∀ q ∈ q0 :: qs, q ∈ r0 :: rs) :
+    nnSq 0 p r0 rs ≤ nnSq 0 p q0 qs := by
+  obtain ⟨q, hq, he⟩ := nnSq_attained p q0 qs
+  rw [he]
+  exact nnSq_le_of_mem p r0 rs q (hsub q hq)
+
+example : chamferSqs (0 : Int) [[0, 0], [3, 4]] [0, 0] [[3, 3], [5, 5]] = [0, 1] := by decide
+example : chamferSqs (0 : Int) [[0, 0], [3, 4]] [0, 0] [[3, 4], [3, 3], [5, 5]] = [0, 0] := by decide
+
+/-! ## NormalVectorScore -/
+
+/-- `mean(A∘B)/(‖A‖‖B‖)` is a normalised cross-correlation of the flattened coordinate arrays divided by
+the number of entries: numerator² ≤ denominator² for every pose … -/
+theorem nvs_sq_le {α : Type} [Field α] [LinearOrder α] [IsStrictOrderedRing α] (A B : List (List α))
+    (h : A.flatten.length = B.flatten.length) : (nvsParts 0 A B).1 ^ 2 ≤ (nvsParts 0 A B).2.1 := by
+  simp only [nvsParts]
+  exact dot_sq_le _ _ h
+
+/-- … with equality, and a non-negative numerator, at the generating pose (template = target):
+the value there is `1/(d·n)`, the maximum -/
+theorem nvs_planted {α : Type} [Field α] [LinearOrder α] [IsStrictOrderedRing α] (A : List (List α)) :
+    (nvsParts 0 A A).1 ^ 2 = (nvsParts 0 A A).2.1 ∧ 0 ≤ (nvsParts 0 A A).1 := by
+  simp only [nvsParts]
+  exact ⟨by ring, dot_self_nonneg _⟩
+
+theorem nvs_planted_best {α : Type} [Field α] [LinearOrder α] [IsStrictOrderedRing α] (A B : List (List α))
+    (h : A.flatten.length = B.flatten.length) (hB : 0 < dot 0 B.flatten B.flatten)
+    (s sp : α) (hs : 0 < s) (hsq : s ^ 2 = (nvsParts 0 A B).2.1)
+    (hsp : 0 < sp) (hspq : sp ^ 2 = (nvsParts 0 B B).2.1) :
+    (nvsParts 0 A B).1 / s ≤ (nvsParts 0 B B).1 / sp := by
+  have h1 : (nvsParts 0 B B).1 / sp = 1 := div_root_self _ sp hB hsp (by simpa [nvsParts] using hspq)
+  rw [h1]
+  exact div_root_le_one _ _ s hs hsq (nvs_sq_le A B h)
+
+example : nvsParts (0 : Int) [[1, 0], [0, 1], [2, 2]] [[0, 1], [1, 0], [2, 2]] = (8, 100, 6) := by decide
+
+/-! ## MaskedCrossCorrelation -/
+
+/-- **with exact integer coordinates and one common mask** (template cells = mask cells, all in the
+volume and in the target mask, so that the overlap count is the number of points): the formula is the
+Pearson correlation of the sampled values with the weights — numerator² ≤ denominator1·denominator2 … -/
+theorem mccCore_sq_le {α : Type} [Field α] [LinearOrder α] [IsStrictOrderedRing α] (v w : List α)
+    (h : v.length = w.length) (hn : (v.length : α) ≠ 0) :
+    (mccCore 0 (v.length : α) v w v w).1 ^ 2 ≤
+      (mccCore 0 (v.length : α) v w v w).2.1 * (mccCore 0 (v.length : α) v w v w).2.2 := by
+  have e1 := dot_centred_mean v v rfl hn
+  have e2 := dot_centred_mean v w h hn
+  have e3 := dot_centred_mean w w rfl (h ▸ hn)
+  rw [← h] at e3
+  have n1 := dot_self_nonneg (v.map (· - sumL 0 v / (v.length : α)))
+  have n3 := dot_self_nonneg (w.map (· - sumL 0 w / (v.length : α)))
+  have cs := dot_sq_le (v.map (· - sumL 0 v / (v.length : α))) (w.map (· - sumL 0 w / (v.length : α)))
+    (by simp [h])
+  simp only [mccCore]
+  rw [← e1, ← e2, ← e3, max_eq_left n1, max_eq_left n3]
+  exact cs
+
+/-- … with equality and a non-negative numerator at the generating pose (values = weights): value 1 -/
+theorem mccCore_planted {α : Type} [Field α] [LinearOrder α] [IsStrictOrderedRing α] (w : List α)
+    (hn : (w.length : α) ≠ 0) :
+    (mccCore 0 (w.length : α) w w w w).1 ^ 2 =
+      (mccCore 0 (w.length : α) w w w w).2.1 * (mccCore 0 (w.length : α) w w w w).2.2 ∧
+      0 ≤ (mccCore 0 (w.length : α) w w w w).1 := by
+  have e1 := dot_centred_mean w w rfl hn
+  have n1 := dot_self_nonneg (w.map (· - sumL 0 w / (w.length : α)))
+  simp only [mccCore]
+  rw [← e1, max_eq_left n1]
+  exact ⟨by ring, n1⟩
+
+/-- recorded finding `planted-best:MaskedCrossCorrelation:identity/moved` (the `astype(int)` truncation):
+target `[0,1,3,2,0,0]`, template cut at cells 1..3.  With exact integer coordinates the planted parts are
+(2, 2, 2) — value 1; with each coordinate 5·10⁻⁷ below the integer (what float32 rigid_transform returns)
+every point is looked up one voxel to the left: (1, 14/3, 2) — value² = 3/28 -/
+theorem mcc_truncation_defect :
+    let T : List Int → Rat := fun p => ([0, 1, 3, 2, 0, 0] : List Rat).getD (p.headD 0).toNat 0
+    let M : List Int → Rat := fun _ => 1
+    let P0 : List (List Int) := [[1], [2], [3]]
+    let w := sampleAll 0 [6] T P0
+    let exact := P0.map asRatio
+    let rounded : List (List (Int × Nat)) := P0.map (fun p => p.map (fun a => (a * 10000000 - 5, 10000000)))
+    mccParts 0 (1 / 4503599627370496) [6] T M exact exact w = (2, 2, 2) ∧
+      mccParts 0 (1 / 4503599627370496) [6] T M rounded rounded w = (1, 14 / 3, 2) := by decide +kernel
+
+/-- recorded finding `planted-best:MaskedCrossCorrelation:moved+0.001` (overlap counted from the target
+mask alone, the sums over all in-volume cells): target `[2,3,0,1]`, target mask `[0,1,1,1]`, template cut at
+cells 1..3 (planted parts (14/3, 14/3, 14/3): value 1).  One voxel to the left a template point sits on a
+voxel outside the target mask: parts (7/2, 1/2, 1/2) — value 7, outside [−1, 1] and better than planted -/
+theorem mcc_overlap_defect :
+    let T : List Int → Rat := fun p => ([2, 3, 0, 1] : List Rat).getD (p.headD 0).toNat 0
+    let M : List Int → Rat := fun p => ([0, 1, 1, 1] : List Rat).getD (p.headD 0).toNat 0
+    let P0 : List (List Int) := [[1], [2], [3]]
+    let w := sampleAll 0 [4] T P0
+    let at_ := fun (t : Int) => mccParts 0 (1 / 4503599627370496) [4] T M
+      ((shiftPts [t] P0).map asRatio) ((shiftPts [t] P0).map asRatio) w
+    at_ 0 = (14 / 3, 14 / 3, 14 / 3) ∧ at_ (-1) = (7 / 2, 1 / 2, 1 / 2) ∧
+      (at_ (-1)).2.1 * (at_ (-1)).2.2 < (at_ (-1)).1 ^ 2 := by decide +kernel
+
+example := mccCore_sq_le ([1, 3, 2] : List ℚ) [2, 3, 1] rfl (by norm_num)
+
+/-- the link to the function the driver runs: **exact integer coordinates** (as ratios `a/1`), mask
+coordinates = template coordinates, every point in the volume and on a voxel of the target mask: both
+in-volume filters keep everything, `astype(int)` is the identity, the overlap count is the number of
+points, and `mccParts` *is* `mccCore` on (sampled values, weights) -/
+theorem mccParts_integer {α : Type} [Field α] [LinearOrder α] [IsStrictOrderedRing α]
+    (eps : α) (shape : List Nat) (T M : List Int → α) (P : List (List Int)) (w : List α)
+    (hin : ∀ p ∈ P, inVol shape p = true) (hM : ∀ p ∈ P, M p = 1) (hlen : P.length = w.length)
+    (heps : eps ≤ (P.length : α)) :
+    mccParts 0 eps shape T M (P.map asRatio) (P.map asRatio) w =
+      mccCore 0 (P.length : α) (P.map T) w (P.map T) w :=
+  mccParts_integer_aux eps shape T M P w hin hM hlen heps
+
+/-- **MaskedCrossCorrelation under exact integer coordinates**: every such pose has
+numerator² ≤ denominator1·denominator2 (|value| ≤ 1) … -/
+theorem mcc_integer_sq_le {α : Type} [Field α] [LinearOrder α] [IsStrictOrderedRing α]
+    (eps : α) (shape : List Nat) (T M : List Int → α) (P : List (List Int)) (w : List α)
+    (hin : ∀ p ∈ P, inVol shape p = true) (hM : ∀ p ∈ P, M p = 1) (hlen : P.length = w.length)
+    (heps : eps ≤ (P.length : α)) (hn : (P.length : α) ≠ 0) :
+    (mccParts 0 eps shape T M (P.map asRatio) (P.map asRatio) w).1 ^ 2 ≤
+      (mccParts 0 eps shape T M (P.map asRatio) (P.map asRatio) w).2.1 *
+        (mccParts 0 eps shape T M (P.map asRatio) (P.map asRatio) w).2.2 := by
+  rw [mccParts_integer eps shape T M P w hin hM hlen heps]
+  have hl : ((P.map T).length : α) = (P.length : α) := by simp
+  have := mccCore_sq_le (P.map T) w (by simpa using hlen) (by rw [hl]; exact hn)
+  rwa [hl] at this
+
+/-- … and the generating pose (weights = target at the template's voxels) attains the bound with a
+non-negative numerator: value 1, the best possible -/
+theorem mcc_integer_planted {α : Type} [Field α] [LinearOrder α] [IsStrictOrderedRing α]
+    (eps : α) (shape : List Nat) (T M : List Int → α) (P : List (List Int))
+    (hin : ∀ p ∈ P, inVol shape p = true) (hM : ∀ p ∈ P, M p = 1)
+    (heps : eps ≤ (P.length : α)) (hn : (P.length : α) ≠ 0) :
+    (mccParts 0 eps shape T M (P.map asRatio) (P.map asRatio) (P.map T)).1 ^ 2 =
+      (mccParts 0 eps shape T M (P.map asRatio) (P.map asRatio) (P.map T)).2.1 *
+        (mccParts 0 eps shape T M (P.map asRatio) (P.map asRatio) (P.map T)).2.2 ∧
+      0 ≤ (mccParts 0 eps shape T M (P.map asRatio) (P.map asRatio) (P.map T)).1 := by
+  rw [mccParts_integer eps shape T M P (P.map T) hin hM (by simp) heps]
+  have hl : ((P.map T).length : α) = (P.length : α) := by simp
+  have := mccCore_planted (P.map T) (by rw [hl]; exact hn)
+  rwa [hl] at this
+
+/-- the same link for poses that push **any part of the template out of the volume** (integer
+coordinates, mask coordinates = template coordinates, target mask 1 wherever an in-volume point lands):
+both filters keep exactly the in-volume points and `mccParts` is `mccCore` on those -/
+theorem mccParts_integer_partial {α : Type} [Field α] [LinearOrder α] [IsStrictOrderedRing α]
+    (eps : α) (shape : List Nat) (T M : List Int → α) (P : List (List Int)) (w : List α)
+    (hM : ∀ p ∈ P, inVol shape p = true → M p = 1) (hlen : P.length = w.length) :
+    mccParts 0 eps shape T M (P.map asRatio) (P.map asRatio) w =
+      mccCore 0 (max (((P.zip w).filter (fun pw => inVol shape pw.1)).length : α) eps)
+        (((P.zip w).filter (fun pw => inVol shape pw.1)).map (fun pw => T pw.1))
+        (((P.zip w).filter (fun pw => inVol shape pw.1)).map (·.2))
+        (((P.zip w).filter (fun pw => inVol shape pw.1)).map (fun pw => T pw.1))
+        (((P.zip w).filter (fun pw => inVol shape pw.1)).map (·.2)) :=
+  mccParts_integer_partial_aux eps shape T M P w hM hlen
+
+/-- hence, with a target mask that covers the volume, **every** pose on the voxel grid with at least one
+point inside the volume has |value| ≤ 1 (the out-of-range values of the recorded findings need a target
+mask that cuts the template, separate mask coordinates or truncated coordinates); together with
+`mcc_integer_planted` the generating pose is best among all of them … -/
+theorem mcc_integer_any_pose_sq_le {α : Type} [Field α] [LinearOrder α] [IsStrictOrderedRing α]
+    (eps : α) (shape : List Nat) (T M : List Int → α) (P : List (List Int)) (w : List α)
+    (hM : ∀ p ∈ P, inVol shape p = true → M p = 1) (hlen : P.length = w.length)
+    (heps : eps ≤ (((P.zip w).filter (fun pw => inVol shape pw.1)).length : α))
+    (hk : (((P.zip w).filter (fun pw => inVol shape pw.1)).length : α) ≠ 0) :
+    (mccParts 0 eps shape T M (P.map asRatio) (P.map asRatio) w).1 ^ 2 ≤
+      (mccParts 0 eps shape T M (P.map asRatio) (P.map asRatio) w).2.1 *
+        (mccParts 0 eps shape T M (P.map asRatio) (P.map asRatio) w).2.2 := by
+  rw [mccParts_integer_partial eps shape T M P w hM hlen, max_eq_left heps]
+  have hl : ((((P.zip w).filter (fun pw => inVol shape pw.1)).map (fun pw => T pw.1)).length : α) =
+      (((P.zip w).filter (fun pw => inVol shape pw.1)).length : α) := by simp
+  have := mccCore_sq_le (((P.zip w).filter (fun pw => inVol shape pw.1)).map (fun pw => T pw.1))
+    (((P.zip w).filter (fun pw => inVol shape pw.1)).map (·.2)) (by simp) (by rw [hl]; exact hk)
+  rwa [hl] at this
+
+/-- … and a pose with the whole template outside the volume has the parts (0, 0, 0): the code returns 0.0 -/
+theorem mcc_integer_all_outside {α : Type} [Field α] [LinearOrder α] [IsStrictOrderedRing α]
+    (eps : α) (shape : List Nat) (T M : List Int → α) (P : List (List Int)) (w : List α)
+    (hlen : P.length = w.length) (hout : ∀ p ∈ P, inVol shape p = false) :
+    mccParts 0 eps shape T M (P.map asRatio) (P.map asRatio) w = (0, 0, 0) := by
+  rw [mccParts_integer_partial eps shape T M P w (fun p hp h => by rw [hout p hp] at h; cases h) hlen]
+  have : (P.zip w).filter (fun pw => inVol shape pw.1) = [] := by
+    apply List.filter_eq_nil_iff.mpr
+    intro pw hpw
+    rw [hout pw.1 (List.of_mem_zip hpw).1]; simp
+  rw [this]
+  simp [mccCore, dot, sumL]
+
+/-- non-vacuity: target `[1,3,2,5]`, template cut at cells 1..3 and pushed two voxels to the right — one
+point left inside, parts (0,0,0); pushed one voxel — two points inside, value² = 1 ≤ 1 -/
+example :
+    let T : List Int → Rat := fun p => ([1, 3, 2, 5] : List Rat).getD (p.headD 0).toNat 0
+    let P0 : List (List Int) := [[1], [2], [3]]
+    let at_ := fun (t : Int) => mccParts 0 (1 / 4503599627370496) [4] T (fun _ => 1)
+      ((shiftPts [t] P0).map asRatio) ((shiftPts [t] P0).map asRatio) (sampleAll 0 [4] T P0)
+    at_ 2 = (0, 0, 0) ∧ at_ 1 = (-3 / 2, 9 / 2, 1 / 2) := by decide +kernel
+
+example : inVol [6] [3] = true ∧ inVol [6] [6] = false ∧ inVolQ [6] [(29999995, 10000000)] = true ∧
+    cellOf [(29999995, 10000000)] = [2] := by decide
+
+/-- with mask coordinates that are a *strict subset* of the template coordinates (overlap counted over
+the mask points, the template sums over all points) the value leaves [−1, 1] already at the generating
+pose, everything inside the volume: target `[0,1,0,1]`, template = all four voxels, mask = the first
+three: parts (4/3, 2/3, 2/3) — value 2 -/
+theorem mcc_mask_subset_defect :
+    let T : List Int → Rat := fun p => ([0, 1, 0, 1] : List Rat).getD (p.headD 0).toNat 0
+    let M : List Int → Rat := fun _ => 1
+    let P0 : List (List Int) := [[0], [1], [2], [3]]
+    let q := mccParts 0 (1 / 4503599627370496) [4] T M (P0.map asRatio) ((P0.take 3).map asRatio)
+      (sampleAll 0 [4] T P0)
+    q = (4 / 3, 2 / 3, 2 / 3) ∧ q.2.1 * q.2.2 < q.1 ^ 2 := by decide +kernel
+
+/-! ## the generating pose as a pose: translation 0 -/
+
+/-- the zero translation leaves the template's voxels where they are, so "values at the generating pose"
+is `sampleAll … P0` in all the statements above -/
+theorem shiftPts_zero (d : Nat) (P : List (List Int)) (h : ∀ p ∈ P, p.length = d) :
+    shiftPts (List.replicate d 0) P = P := by
+  unfold shiftPts
+  conv_rhs => rw [← List.map_id P]
+  apply List.map_congr_left
+  intro p hp
+  have hl := h p hp
+  clear hp h
+  induction p generalizing d with
+  | nil => simp
+  | cons a p ih =>
+    cases d with
+    | zero => simp at hl
+    | succ d =>
+      simp only [List.replicate_succ, List.zipWith_cons_cons, add_zero, id]
+      rw [ih d (by simpa using hl)]
+      rfl
+
+example : shiftPts (List.replicate 2 0) [[1, 2], [3, 4]] = [[1, 2], [3, 4]] := by decide
+
+/-! ## MutualInformation (what the code computes: `Σ p_xy² / (p_x p_y + eps)` over the 10 × 10 histogram) -/
+
+/-- the table score is symmetric in its two arguments … -/
+theorem mi_symm {α : Type} [Field α] (eps : α) (bv bw : List Nat) :
+    miScore 0 eps (fun k => (k : α)) bv bw = miScore 0 eps (fun k => (k : α)) bw bv :=
+  miScore_symm_aux eps bw bv
+
+/-- … for every pairing of bin indices and every regulariser `eps ≥ 0` it is at most the number of
+non-empty weight bins … -/
+theorem mi_le_nonempty_bins {α : Type} [Field α] [LinearOrder α] [IsStrictOrderedRing α] (eps : α)
+    (heps : 0 ≤ eps) (bv bw : List Nat) (h : bv.length = bw.length) :
+    miScore 0 eps (fun k => (k : α)) bv bw ≤
+      sumL 0 ((List.range 10).map (fun j => if 0 < bw.count j then (1 : α) else 0)) := by
+  have := miScore_le_aux2 eps heps bv bw
+  rwa [List.map_snd_zip (by omega)] at this
+
+/-- … which is exactly the value for identical partitions (values = weights: the generating pose),
+without the regulariser … -/
+theorem mi_planted_value {α : Type} [Field α] [LinearOrder α] [IsStrictOrderedRing α] (b : List Nat) :
+    miScore 0 0 (fun k => (k : α)) b b =
+      sumL 0 ((List.range 10).map (fun i => if 0 < b.count i then (1 : α) else 0)) :=
+  miScore_self_aux b
+
+/-- … hence **the generating pose is best** for the function the driver runs (`miOf`: numpy's binning
+of the interpolated values and of the weights, then the table score), up to the regulariser
+`eps = 2⁻⁵²` in the denominators of the planted value (which lowers it by at most
+`#bins · eps · n²`; that last estimate is not proved here) -/
+theorem mi_planted_best {α : Type} [Field α] [LinearOrder α] [IsStrictOrderedRing α] (eps : α)
+    (heps : 0 ≤ eps) (v w : List α) (h : v.length = w.length) :
+    miOf 0 eps (fun k => (k : α)) v w ≤ miOf 0 0 (fun k => (k : α)) w w := by
+  unfold miOf
+  rw [mi_planted_value]
+  exact mi_le_nonempty_bins eps heps _ _ (by simp [h])
+
+/-- **best within the regulariser**: with the code's `eps` in the denominators the planted value is at
+least `(1 − eps·n²)` times the value of any other pose (`n` template points; `eps·n² ≈ 2.2·10⁻¹⁶·n²`) -/
+theorem mi_planted_best_within_regulariser {α : Type} [Field α] [LinearOrder α] [IsStrictOrderedRing α]
+    (eps : α) (heps : 0 ≤ eps) (v w : List α) (h : v.length = w.length)
+    (hsmall : eps * ((w.length : α) * (w.length : α)) ≤ 1) :
+    miOf 0 eps (fun k => (k : α)) v w * (1 - eps * ((w.length : α) * (w.length : α))) ≤
+      miOf 0 eps (fun k => (k : α)) w w := by
+  unfold miOf
+  have h1 := mi_le_nonempty_bins eps heps
+    (v.map (binOf (fun k => (k : α)) (listMin 0 v) (listMax 0 v)))
+    (w.map (binOf (fun k => (k : α)) (listMin 0 w) (listMax 0 w))) (by simp [h])
+  have h2 := miScore_self_ge eps heps (w.map (binOf (fun k => (k : α)) (listMin 0 w) (listMax 0 w)))
+  rw [List.length_map] at h2
+  exact (mul_le_mul_of_nonneg_right h1 (by linarith)).trans h2
+
+example : (1 / 4503599627370496 : ℚ) * ((4 : ℚ) * 4) ≤ 1 := by norm_num
+
+/-- symmetry of the whole score -/
+theorem miOf_symm {α : Type} [Field α] [LinearOrder α] [IsStrictOrderedRing α] (eps : α) (v w : List α) :
+    miOf 0 eps (fun k => (k : α)) v w = miOf 0 eps (fun k => (k : α)) w v := by
+  unfold miOf
+  exact mi_symm eps _ _
+
+example : binOf (fun k => (k : Rat)) 0 10 0 = 0 ∧ binOf (fun k => (k : Rat)) 0 10 3 = 3 ∧
+    binOf (fun k => (k : Rat)) 0 10 10 = 9 ∧ binOf (fun k => (k : Rat)) 2 2 2 = 5 := by decide +kernel
+example : miOf (0 : Rat) 0 (fun k => (k : Rat)) [0, 5, 10, 5] [0, 5, 10, 5] = 3 ∧
+    miOf (0 : Rat) 0 (fun k => (k : Rat)) [0, 10, 5, 5] [0, 5, 10, 5] = 9 / 4 := by decide +kernel
+
+/-! ## LaplaceCrossCorrelation -/
+
+/-- the score is `CrossCorrelation` on Laplace-filtered quantities (`cc_planted_best_of_norm_le`,
+`cc_abs_le_of_norm_le` apply to the filtered vectors), but the two sides are filtered *differently*: the
+target over the whole map, the weights over the template's bounding box with reflecting borders — at the
+generating pose the two vectors are not equal (target `[0,1,4,1,0]`, template at cells 1..3) -/
+theorem laplace_planted_vectors_differ :
+    let T : List Int → Int := fun p => ([0, 1, 4, 1, 0] : List Int).getD (p.headD 0).toNat 0
+    let P0 : List (List Int) := [[1], [2], [3]]
+    let w := sampleAll 0 [5] T P0
+    w = [1, 4, 1] ∧ sampleAll 0 [5] (laplaceTarget 0 [5] T) P0 = [2, -6, 2] ∧
+      laplaceWeights 0 1 P0 w = [3, -6, 3] ∧
+      ccScore 0 1 1 (sampleAll 0 [5] (laplaceTarget 0 [5] T) P0) (laplaceWeights 0 1 P0 w) = 48 := by decide
+
+/-! ## the common interface as compositions -/
+
+/-- `score_translation(t)` is `score` at the pose `(t, 0)`: the value of a fresh object for that pose,
+whatever was evaluated before (and likewise `score_angles`) -/
+theorem score_translation_value {α β : Type} (S : C2DStatic α β) (hasMask : Bool) (n m : Nat)
+    (hc : C2DContract S n m) (st : C2DState α) (hw : C2DWf S hasMask n m st) (z : α) (t : List α) :
+    (c2dStep S st (poseOfTranslation z t)).1 = c2dPure S hasMask (t ++ List.replicate t.length z) ∧
+      formatPose (poseOfTranslation z t) = (t, List.replicate t.length z) :=
+  ⟨c2dStep_value S hasMask n m hc st hw _, formatPose_translation z t⟩
+
+theorem score_angles_value {α β : Type} (S : C2DStatic α β) (hasMask : Bool) (n m : Nat)
+    (hc : C2DContract S n m) (st : C2DState α) (hw : C2DWf S hasMask n m st) (z : α) (a : List α) :
+    (c2dStep S st (poseOfAngles z a)).1 = c2dPure S hasMask (List.replicate a.length z ++ a) ∧
+      formatPose (poseOfAngles z a) = (List.replicate a.length z, a) :=
+  ⟨c2dStep_value S hasMask n m hc st hw _, formatPose_angles z a⟩
+
+example : poseOfTranslation (0 : Int) [1, 2, 3] = [1, 2, 3, 0, 0, 0] ∧ poseOfAngles (0 : Int) [1, 2, 3] = [0, 0, 0, 1, 2, 3] := by
+  decide
+
+/-! ## FLC (the density-to-density score's formula) -/
+
+/-- **full template mask, template wholly inside the target** (`g` the template, `f` the target under
+it, `n` voxels): numerator² ≤ (n·var g)·(n·var f), i.e. the value `numerator / (σ_g σ_f n)` lies in
+[−1, 1] for every voxel translation … -/
+theorem flc_full_sq_le {α : Type} [Field α] [LinearOrder α] [IsStrictOrderedRing α] (g f : List α)
+    (h : g.length = f.length) (hn : (g.length : α) ≠ 0) :
+    (flcCore 0 (g.length : α) g (List.replicate g.length 1) g (List.replicate g.length 1) f).1 ^ 2 ≤
+      ((g.length : α) * (flcCore 0 (g.length : α) g (List.replicate g.length 1) g (List.replicate g.length 1) f).2.1) *
+        ((g.length : α) * (flcCore 0 (g.length : α) g (List.replicate g.length 1) g (List.replicate g.length 1) f).2.2) :=
+  flc_full_sq_le_aux g f h hn
+
+/-- … and at the generating pose (target under the template = template) numerator = n·var g ≥ 0 and the
+two variances agree: the value is exactly 1, the best possible -/
+theorem flc_full_planted {α : Type} [Field α] [LinearOrder α] [IsStrictOrderedRing α] (g : List α)
+    (hn : (g.length : α) ≠ 0) :
+    (flcCore 0 (g.length : α) g (List.replicate g.length 1) g (List.replicate g.length 1) g).1 =
+      (g.length : α) * (flcCore 0 (g.length : α) g (List.replicate g.length 1) g (List.replicate g.length 1) g).2.1 ∧
+    (flcCore 0 (g.length : α) g (List.replicate g.length 1) g (List.replicate g.length 1) g).2.1 =
+      (flcCore 0 (g.length : α) g (List.replicate g.length 1) g (List.replicate g.length 1) g).2.2 ∧
+    0 ≤ (flcCore 0 (g.length : α) g (List.replicate g.length 1) g (List.replicate g.length 1) g).1 :=
+  flc_full_planted_aux g hn
+
+/-- the function the driver runs (`flcOf`: windows of `flcWindow`, gathering, `flcCore`) on a template
+`[1,3,2]` cut from the target `[0,1,3,2,0,0]` at offset 1: planted parts (2, 2/3, 2/3, 3) — value
+2/(√(2/3)·√(2/3)·3) = 1; one voxel further (1, 2/3, 14/9, 3) — value² = 9/28; half outside (translation −2:
+one voxel of overlap) the window sums shrink accordingly -/
+theorem flcOf_example :
+    let g : List Nat → Rat := fun i => ([1, 3, 2] : List Rat).getD (i.headD 0) 0
+    let f : List Int → Rat := fun p => ([0, 1, 3, 2, 0, 0] : List Rat).getD (p.headD 0).toNat 0
+    flcOf 0 [3] [6] g (fun _ => 1) f [1] = (2, 2 / 3, 2 / 3, 3) ∧
+      flcOf 0 [3] [6] g (fun _ => 1) f [0] = (1, 2 / 3, 14 / 9, 3) ∧
+      flcOf 0 [3] [6] g (fun _ => 1) f [-2] = (0, 2 / 3, 0, 3) := by decide +kernel
+
+example := flc_full_sq_le ([1, 3, 2] : List ℚ) [0, 1, 3] rfl (by norm_num)
+
+/-- **any binary template mask** (template wholly inside the target, `n = Σ mask` voxels under the mask):
+the formula is the full-mask formula on the masked voxels, so again numerator² ≤ (n·var g)(n·var f) … -/
+theorem flc_binary_sq_le {α : Type} [Field α] [LinearOrder α] [IsStrictOrderedRing α] (g m f : List α)
+    (hb : ∀ x ∈ m, x = 0 ∨ x = 1) (hg : g.length = m.length) (hf : f.length = m.length) (hn : sumL 0 m ≠ 0) :
+    (flcCore 0 (sumL 0 m) g m g m f).1 ^ 2 ≤
+      (sumL 0 m * (flcCore 0 (sumL 0 m) g m g m f).2.1) * (sumL 0 m * (flcCore 0 (sumL 0 m) g m g m f).2.2) :=
+  flc_binary_sq_le_aux g m f hb hg hf hn
+
+/-- … with value 1 at the generating pose -/
+theorem flc_binary_planted {α : Type} [Field α] [LinearOrder α] [IsStrictOrderedRing α] (g m : List α)
+    (hb : ∀ x ∈ m, x = 0 ∨ x = 1) (hg : g.length = m.length) (hn : sumL 0 m ≠ 0) :
+    (flcCore 0 (sumL 0 m) g m g m g).1 = sumL 0 m * (flcCore 0 (sumL 0 m) g m g m g).2.1 ∧
+    (flcCore 0 (sumL 0 m) g m g m g).2.1 = (flcCore 0 (sumL 0 m) g m g m g).2.2 ∧
+    0 ≤ (flcCore 0 (sumL 0 m) g m g m g).1 :=
+  flc_binary_planted_aux g m hb hg hn
+
+example := flc_binary_sq_le ([1, 3, 2, 5] : List ℚ) [1, 0, 1, 1] [0, 1, 3, 4]
+  (by simp) rfl rfl (by norm_num [sumL])
+
+/-- **every voxel translation** — template inside, partly or wholly outside the target — for the function
+the driver runs (`flcOf`: `flcWindow` windows, gathering, masked standardisation over the whole template,
+window sums) and any binary template mask: numerator² ≤ (n·var g)(n·var f), i.e. |value| ≤ 1.  (The window
+sums are whole-template sums against the target zero-extended outside the window: `flcCore_window`.) -/
+theorem flcOf_sq_le {α : Type} [Field α] [LinearOrder α] [IsStrictOrderedRing α]
+    (shape tshape : List Nat) (g m : List Nat → α) (f : List Int → α) (v : List Int)
+    (hb : ∀ i ∈ allIdx shape, m i = 0 ∨ m i = 1)
+    (hn : (flcOf 0 shape tshape g m f v).2.2.2 ≠ 0) :
+    (flcOf 0 shape tshape g m f v).1 ^ 2 ≤
+      ((flcOf 0 shape tshape g m f v).2.2.2 * (flcOf 0 shape tshape g m f v).2.1) *
+        ((flcOf 0 shape tshape g m f v).2.2.2 * (flcOf 0 shape tshape g m f v).2.2.1) :=
+  flcOf_sq_le_aux shape tshape g m f v hb hn
+
+/-- … and at the generating translation (the window is the whole template and the target under it is the
+template) numerator = n·var g ≥ 0 and var f = var g: value 1 — **the generating pose is best among all
+voxel translations** -/
+theorem flcOf_planted {α : Type} [Field α] [LinearOrder α] [IsStrictOrderedRing α]
+    (shape tshape : List Nat) (g m : List Nat → α) (f : List Int → α) (v : List Int)
+    (hb : ∀ i ∈ allIdx shape, m i = 0 ∨ m i = 1)
+    (hsel : (allIdx shape).filter (flcInWin shape (windows shape tshape v)) = allIdx shape)
+    (hfg : ∀ i ∈ allIdx shape, f (flcTgt (windows shape tshape v) i) = g i)
+    (hn : (flcOf 0 shape tshape g m f v).2.2.2 ≠ 0) :
+    (flcOf 0 shape tshape g m f v).1 =
+        (flcOf 0 shape tshape g m f v).2.2.2 * (flcOf 0 shape tshape g m f v).2.1 ∧
+      (flcOf 0 shape tshape g m f v).2.1 = (flcOf 0 shape tshape g m f v).2.2.1 ∧
+      0 ≤ (flcOf 0 shape tshape g m f v).1 :=
+  flcOf_planted_aux shape tshape g m f v hb hsel hfg hn
+
+/-- non-vacuity of the two hypotheses of `flcOf_planted`: a 2 × 2 template cut from a 3 × 4 target at offset (1, 2) -/
+example :
+    let f : List Int → Int := fun p => ([[1, 2, 3, 4], [5, 6, 7, 9], [2, 0, 1, 8]] : List (List Int)).getD (p.headD 0).toNat []
+      |>.getD (p.getD 1 0).toNat 0
+    let g : List Nat → Int := fun i => f [(i.headD 0 : Int) + 1, (i.getD 1 0 : Int) + 2]
+    (allIdx [2, 2]).filter (flcInWin [2, 2] (windows [2, 2] [3, 4] [1, 2])) = allIdx [2, 2] ∧
+      (∀ i ∈ allIdx [2, 2], f (flcTgt (windows [2, 2] [3, 4] [1, 2]) i) = g i) ∧
+      (allIdx [2, 2]).filter (flcInWin [2, 2] (windows [2, 2] [3, 4] [2, 3])) = [[0, 0]] := by decide
+
+/-- `FLC.score_translation(t)` / `score_angles(a)` are `score` at `(t, 0)` / `(0, a)`: fresh-object values -/
+theorem flc_score_translation_value {α β : Type} (S : D2DStatic α β) (L : Nat) (hc : D2DContract S L)
+    (st : D2DState α) (hw : D2DWf S L st) (z : α) (t : List α) :
+    (d2dStep S st (poseOfTranslation z t)).1 = d2dPure S (t ++ List.replicate t.length z) ∧
+      (d2dStep S st (poseOfAngles z t)).1 = d2dPure S (List.replicate t.length z ++ t) :=
+  ⟨d2dStep_value S L hc st hw _, d2dStep_value S L hc st hw _⟩
+
+/-! ## further facts about the formulas -/
+
+/-- whatever the positions, the interpolated values of the coded target are −1, 0 or 1 -/
+theorem envelope_values_coded {α : Type} [LT α] [DecidableLT α] (thr : α) (shape : List Nat) (T : List Int → α)
+    (P : List (List Int)) :
+    ∀ x ∈ sampleAll 0 shape (fun p => envCode thr (T p)) P, x = -1 ∨ x = 0 ∨ x = 1 := by
+  intro x hx
+  obtain ⟨p, _, rfl⟩ := List.mem_map.mp hx
+  unfold sample envCode
+  split
+  · simp only []
+    split
+    · exact Or.inl rfl
+    · exact Or.inr (Or.inr rfl)
+  · exact Or.inr (Or.inl rfl)
+
+/-- hence for **every** pose on voxels the Envelope value is
+`(#points on empty voxels − 2·#points outside + present + 4·absent) / (3·present + 2·absent)` -/
+theorem envelope_sampled_eq {α : Type} [LT α] [DecidableLT α] (thr : α) (shape : List Nat) (T : List Int → α)
+    (present absent : Int) (P : List (List Int)) :
+    envelopeParts present absent (sampleAll 0 shape (fun p => envCode thr (T p)) P) =
+      (cnt 1 (sampleAll 0 shape (fun p => envCode thr (T p)) P)
+        - 2 * cnt 0 (sampleAll 0 shape (fun p => envCode thr (T p)) P) + present + 4 * absent,
+       3 * present + 2 * absent) :=
+  envelopeParts_eq present absent _ (envelope_values_coded thr shape T P)
+
+example : sampleAll 0 [3] (fun p => envCode (2 : Int) (([0, 5, 0] : List Int).getD (p.headD 0).toNat 0)) [[1], [2], [3]]
+    = [-1, 1, 0] := by decide
+
+/-- the Laplace filter (reflecting borders) removes constant offsets of the map -/
+theorem laplace_offset_invariant {α : Type} [Field α] (shape : List Nat) (T : List Int → α) (c : α) (p : List Int) :
+    laplaceAt 0 shape (fun q => T q + c) p = laplaceAt 0 shape T p := by
+  unfold laplaceAt
+  apply congrArg
+  apply List.map_congr_left
+  intro k _
+  simp only []
+  ring
+
+example : laplaceAt (0 : Int) [3] (fun p => ([1, 4, 2] : List Int).getD (p.headD 0).toNat 0) [1] = -5 ∧
+    laplaceAt (0 : Int) [3] (fun p => ([1, 4, 2] : List Int).getD (p.headD 0).toNat 0 + 7) [1] = -5 := by decide
+
+/-- if a pose reaches the planted cross-correlation value with sampled values of no larger norm, its
+values *are* the weights -/
+theorem cc_unique_of_norm_le {α : Type} [Field α] [LinearOrder α] [IsStrictOrderedRing α] (v w : List α)
+    (h : v.length = w.length) (hn : dot 0 v v ≤ dot 0 w w) (he : dot 0 v w = dot 0 w w) : v = w := by
+  apply plsq_eq_zero v w h
+  have hx := plsq_scaled_expand v w 1 h
+  have h1 : v.map (· * (1 : α)) = v := by simp
+  rw [h1] at hx
+  have h2 := plsq_nonneg_aux v w
+  nlinarith
+
+example := cc_unique_of_norm_le ([1, 2] : List ℚ) [1, 2] rfl (le_refl _) rfl
+
+/-- the corrected mean-centred score (each side centred by its *own* mean over the template's points:
+the Pearson correlation) has numerator² ≤ denominator² for every pose and equality at the generating pose -/
+theorem nccMean_corrected_best {α : Type} [Field α] [LinearOrder α] [IsStrictOrderedRing α] (v w : List α)
+    (h : v.length = w.length) :
+    (nccParts 0 (centreWeights 0 (1 / (v.length : α)) v) (centreWeights 0 (1 / (w.length : α)) w)).1 ^ 2 ≤
+      (nccParts 0 (centreWeights 0 (1 / (v.length : α)) v) (centreWeights 0 (1 / (w.length : α)) w)).2 ∧
+    (nccParts 0 (centreWeights 0 (1 / (w.length : α)) w) (centreWeights 0 (1 / (w.length : α)) w)).1 ^ 2 =
+      (nccParts 0 (centreWeights 0 (1 / (w.length : α)) w) (centreWeights 0 (1 / (w.length : α)) w)).2 := by
+  constructor
+  · simp only [nccParts]
+    rw [mul_comm]
+    exact dot_sq_le _ _ (by simp [centreWeights, h])
+  · simp only [nccParts]; ring
+
+example := nccMean_corrected_best ([1, 2, 6] : List ℚ) [3, 1, 2] rfl
+
+/-! ## the clause for translation poses, and the equality cases -/
+
+/-- **the clause itself for translation poses, NormalizedCrossCorrelation**: a template generated at the
+voxels `P0` (weights = target there, not all zero); for every voxel translation `t` — keeping the template
+inside the volume, pushing it partly or wholly outside — the value at `t` is at most the value at the
+generating pose `t = 0` (`s`, `s0` the square roots of the two denominators²) -/
+theorem ncc_planted_best_translation {α : Type} [Field α] [LinearOrder α] [IsStrictOrderedRing α]
+    (shape : List Nat) (T : List Int → α) (d : Nat) (P0 : List (List Int)) (hd : ∀ p ∈ P0, p.length = d)
+    (t : List Int)
+    (hw : 0 < dot 0 (sampleAll 0 shape T P0) (sampleAll 0 shape T P0))
+    (s s0 : α) (hs : 0 < s)
+    (hsq : s ^ 2 = (nccParts 0 (sampleAll 0 shape T (shiftPts t P0)) (sampleAll 0 shape T P0)).2)
+    (hs0 : 0 < s0)
+    (hs0q : s0 ^ 2 = (nccParts 0 (sampleAll 0 shape T (shiftPts (List.replicate d 0) P0)) (sampleAll 0 shape T P0)).2) :
+    (nccParts 0 (sampleAll 0 shape T (shiftPts t P0)) (sampleAll 0 shape T P0)).1 / s ≤
+      (nccParts 0 (sampleAll 0 shape T (shiftPts (List.replicate d 0) P0)) (sampleAll 0 shape T P0)).1 / s0 := by
+  rw [shiftPts_zero d P0 hd] at hs0q ⊢
+  exact ncc_planted_best _ _ (by simp [sampleAll, shiftPts]) hw s s0 hs hsq hs0 hs0q
+
+/-- the same for the least-squares distance (smaller is better) -/
+theorem plsq_planted_best_translation {α : Type} [Field α] [LinearOrder α] [IsStrictOrderedRing α]
+    (shape : List Nat) (T : List Int → α) (d : Nat) (P0 : List (List Int)) (hd : ∀ p ∈ P0, p.length = d)
+    (t : List Int) :
+    plsq 0 (sampleAll 0 shape T (shiftPts (List.replicate d 0) P0)) (sampleAll 0 shape T P0) ≤
+      plsq 0 (sampleAll 0 shape T (shiftPts t P0)) (sampleAll 0 shape T P0) := by
+  rw [shiftPts_zero d P0 hd]
+  exact plsq_planted_best shape T P0 _
+
+
+example : (∀ p ∈ ([[1, 2], [3, 4]] : List (List Int)), p.length = 2) := by decide
+/-- **equality case** (uniqueness of the optimum up to scale): a pose whose normalised value reaches 1
+samples values proportional to the weights, `w = x·v` with `x = ⟨v,w⟩/⟨v,v⟩ > 0` -/
+theorem ncc_value_one_proportional {α : Type} [Field α] [LinearOrder α] [IsStrictOrderedRing α]
+    (v w : List α) (h : v.length = w.length) (s : α) (hs : 0 < s) (hsq : s ^ 2 = (nccParts 0 v w).2)
+    (hone : (nccParts 0 v w).1 / s = 1) :
+    0 < dot 0 v w / dot 0 v v ∧ v.map (· * (dot 0 v w / dot 0 v v)) = w := by
+  simp only [nccParts] at hsq hone
+  have hnum : dot 0 v w = s := by
+    have := (div_eq_one_iff_eq hs.ne').mp hone
+    exact this
+  have hvv0 := dot_self_nonneg v
+  have hww0 := dot_self_nonneg w
+  have hprod : dot 0 w w * dot 0 v v = dot 0 v w ^ 2 := by rw [hnum]; exact hsq.symm
+  have hvv : 0 < dot 0 v v := by
+    rcases lt_or_eq_of_le hvv0 with h1 | h1
+    · exact h1
+    · exfalso
+      rw [← h1, mul_zero] at hprod
+      have : dot 0 v w = 0 := by
+        have := hprod.symm
+        exact pow_eq_zero_iff (two_ne_zero) |>.mp this
+      rw [this] at hnum
+      exact hs.ne' hnum.symm
+  refine ⟨div_pos (hnum ▸ hs) hvv, ?_⟩
+  apply plsq_eq_zero _ _ (by simp [h])
+  rw [plsq_scaled_expand v w _ h]
+  field_simp
+  nlinarith [hprod]
+
+example : ([1, 2] : List ℚ).map (· * (dot 0 [1, 2] [2, 4] / dot 0 [1, 2] [1, 2])) = [2, 4] := by norm_num [dot]
+/-- at the generating pose of a point set (template points = target points, in any order, also as a
+subset of a larger target) every nearest-neighbour distance is 0: the minimum by `chamfer_nonneg` -/
+theorem chamfer_planted_zero {α : Type} [Field α] [LinearOrder α] [IsStrictOrderedRing α]
+    (P : List (List α)) (q0 : List α) (qs : List (List α)) (hsub : ∀ p ∈ P, p ∈ q0 :: qs) :
+    ∀ d ∈ chamferSqs 0 P q0 qs, d = 0 := by
+  intro d hd
+  obtain ⟨p, hp, rfl⟩ := List.mem_map.mp hd
+  have h1 := nnSq_le_of_mem p q0 qs p (hsub p hp)
+  rw [plsq_self] at h1
+  obtain ⟨q, _, he⟩ := nnSq_attained p q0 qs
+  have h2 : 0 ≤ nnSq 0 p q0 qs := he ▸ plsq_nonneg_aux _ _
+  exact le_antisymm h1 h2
+
+example : chamferSqs (0 : Int) [[3, 4], [0, 0]] [0, 0] [[3, 4], [7, 7]] = [0, 0] := by decide
+
+/-! ## windows of a template inside the target; the Laplace pair -/
+
+/-- a template that lies wholly inside the target on an axis (`0 ≤ v`, `v + n ≤ N`): the template window
+is the whole axis `[0, n)`, the target window `[v, v + n)` — so `flcInWin` keeps every index of that axis
+and `flcTgt` adds `v` -/
+theorem flcWindow_inside (n N : Nat) (v : Int) (h0 : 0 ≤ v) (h1 : v + n ≤ N) :
+    flcWindow n N v = ⟨0, n, v, v + n⟩ ∧ pySlice n (flcWindow n N v).tLo (flcWindow n N v).tHi = (0, n) := by
+  have e : flcWindow n N v = ⟨0, n, v, v + n⟩ := by
+    rw [flcWindow_eq, Win.mk.injEq]
+    omega
+  refine ⟨e, ?_⟩
+  rw [e]
+  simp only [pySlice]
+  have a : ¬ ((0 : Int) < 0) := by omega
+  have b : ¬ ((n : Int) < 0) := by omega
+  simp only [a, b, if_false]
+  simp
+
+example : flcWindow 3 6 1 = ⟨0, 3, 1, 4⟩ := by decide
+
+/-- LaplaceCrossCorrelation is `CrossCorrelation` on the filtered pair: what holds is the norm-bounded
+statement for the filtered vectors (any positions, any template) -/
+theorem laplace_cc_best_of_norm_le {α : Type} [Field α] [LinearOrder α] [IsStrictOrderedRing α]
+    (shape : List Nat) (T : List Int → α) (d : Nat) (P0 P : List (List Int)) (w : List α)
+    (h : P.length = P0.length)
+    (hn : dot 0 (sampleAll 0 shape (laplaceTarget 0 shape T) P) (sampleAll 0 shape (laplaceTarget 0 shape T) P) ≤
+      dot 0 (laplaceWeights 0 d P0 w) (laplaceWeights 0 d P0 w)) :
+    ccScore 0 1 1 (sampleAll 0 shape (laplaceTarget 0 shape T) P) (laplaceWeights 0 d P0 w) ≤
+      dot 0 (laplaceWeights 0 d P0 w) (laplaceWeights 0 d P0 w) := by
+  simp only [ccScore, mul_one, div_one]
+  exact dot_le_of_norm_le _ _ (by simp [sampleAll, laplaceWeights, h]) hn
+
+example :
+    let T : List Int → Rat := fun p => ([0, 1, 4, 1, 0] : List Rat).getD (p.headD 0).toNat 0
+    let P0 : List (List Int) := [[1], [2], [3]]
+    dot 0 (sampleAll 0 [5] (laplaceTarget 0 [5] T) P0) (sampleAll 0 [5] (laplaceTarget 0 [5] T) P0) ≤
+      dot 0 (laplaceWeights 0 1 P0 [1, 4, 1]) (laplaceWeights 0 1 P0 [1, 4, 1]) := by decide +kernel
+
+/-- non-vacuity of `flcOf_sq_le`: a binary mask with a hole, template half outside the target -/
+example :
+    let g : List Nat → Rat := fun i => ([1, 3, 2] : List Rat).getD (i.headD 0) 0
+    let m : List Nat → Rat := fun i => ([1, 0, 1] : List Rat).getD (i.headD 0) 0
+    let f : List Int → Rat := fun p => ([0, 1, 3, 2, 0, 0] : List Rat).getD (p.headD 0).toNat 0
+    (∀ i ∈ allIdx [3], m i = 0 ∨ m i = 1) ∧ (flcOf 0 [3] [6] g m f [-1]).2.2.2 ≠ 0 ∧
+      flcOf 0 [3] [6] g m f [-1] = (1 / 2, 1 / 4, 1 / 4, 2) := by decide +kernel
 
 end Pm.C17
